@@ -518,6 +518,10 @@ def family_c04(tier, seed):
     out.append({'command': 'tool', 'variants': [S(Ref('U'), Ref('PATH'), Sub(L('u='), Ref('U')), Ref('DIRECTORY'), Ref('ANY'))],
                 'defs': [('U', 'zsh', Cmd('_users')), ('U', 'fish', Cmd('__fish_complete_users')), ('U', None, Cmd('cat /etc/passwd | cut -d: -f1')),
                          ('U', 'pwsh', Cmd('Get-LocalUser | ForEach-Object { $_.Name }'))]})
+    out.extend(loops_to_start_shapes())
+    # command names that are not identifiers (function names and the registration line are built from them)
+    for name in ('g++', 'mkfs.ext4', 'foo@bar', 'docker-compose', '7z', 'a:b', 'x=y'):
+        out.append(gram.mk(name, S(Sub(L('--o='), A(L('a'), L('b'))), Opt(col), L('end')), cdef))
     fams = [('within-word table sharing', out)]
     fams.append(('exhaustive<=%d' % (4 if tier == 'quick' else 5), gram.exhaustive_family(4 if tier == 'quick' else 5)))
     fams.append(('random(seed=%d)' % seed, gram.random_family(seed, 150 if tier == 'quick' else 1500)))
@@ -598,7 +602,12 @@ def check_C16(tier, seed):
         rc, dfa_txt, rx_txt, err = e16.dump_files(gram.print_grammar(g), 'fish')
         if rc == 0:
             files += [dfa_txt, rx_txt]
-    nlines = e16.lines_in_site_languages(mir, files, stats)
+    try:
+        nlines = e16.lines_in_site_languages(mir, files, stats)
+    except Inconclusive as e:
+        # no verdict from this part; what the other parts found is still reported
+        rep.inconclusive.append(str(e))
+        nlines = 0
     rep.coverage['e1_prime'] = {'format_sites': rows, 'real_lines_matched_against_site_languages': nlines,
                                 'make_dot_string_constant': {'bound': 'all ASCII strings up to %d bytes' % N, 'holds': holds, 'cells': ncells,
                                                              'translator_validation_strings': nvalid},
@@ -663,6 +672,7 @@ def family_c01(tier, seed):
         gram.mk('cmd', S(L('f', 'descr f'), gram.Descr(A(L('g'), S(L('h'), L('i'))), 'dd'), L('z'))),
     ]
     shapes.extend(shared_definition_shapes())
+    shapes.extend(loops_to_start_shapes())
     fams.append(('shapes', shapes))
     scoped, loops = scope_shapes()
     fams.append(('main and within-word tables in one dynamic scope', scoped, 2))
@@ -845,6 +855,19 @@ def long_candidate_family(base_probes):
     return ('command candidates of length >= 10 next to shorter ones', out, 2, {'probes': probes, 'max_len': 14})
 
 
+def loops_to_start_shapes():
+    """the whole command line is an optional repetition, so the automaton returns to its start state (number 0 after
+    renumbering) -- by a literal, by a placeholder (any word), by a command, by a within-word expression"""
+    L, S, A, Sub, Ref, Opt, Many, Cmd = gram.Lit, gram.Seq, gram.Alt, gram.Sub, gram.Ref, gram.Opt, gram.Many, gram.Cmd
+    return [
+        gram.mk('cmd', Many(Opt(A(S(L('--name'), Ref('NAME')), L('--verbose'))))),
+        gram.mk('cmd', Many(Opt(A(L('--verbose'), Ref('FILE'))))),
+        gram.mk('cmd', Many(Opt(A(S(L('-c'), Cmd(probe('c1'))), L('-v'))))),
+        gram.mk('cmd', Many(Opt(A(Sub(L('--o='), A(L('a'), L('b'))), S(L('-n'), Ref('N')))))),
+        gram.mk('cmd', Many(Opt(Sub(L('k='), Ref('V'))))),
+    ]
+
+
 def scope_shapes():
     """tables of the main automaton and of several within-word automata live in one dynamic scope: a command / placeholder
     at top level together with within-word expressions that do and do not contain one"""
@@ -920,7 +943,7 @@ def family_c17(tier, seed):
                gram.mk('cmd', S(c9, L('x'))), gram.mk('cmd', S(Sub(L('k='), c9), L('x'))), gram.mk('cmd', S(F(L('lit'), c9), Opt(c9)))]
     return [('commands at every syntactic position', out), ('repeated mixtures of commands and within-word items', loops, 1 if tier == 'quick' else 2),
             ('command output with backslashes, glob characters and blanks', special, 2, {'concrete_vocab_cases': True}),
-            long_candidate_family(dict(PROBES, **PROBES_C17))]
+            long_candidate_family(dict(PROBES, **PROBES_C17)), glob_family()]
 
 
 def check_C17(tier, seed):
